@@ -37,6 +37,7 @@ from gv.astutil import param_names
 from gv.astutil import stmts_of
 from gv.astutil import walk_body
 from gv.cfg import cfg_of
+from gv.props.shared import literal_facts
 from gv.props import describe
 from gv.props.shared import conj_literals
 from gv.report import Ctx
@@ -852,6 +853,27 @@ def check_statistics(ctx: Ctx) -> None:
             c = next(c for c in ast.walk(comps[0].elt) if isinstance(c, ast.Call) and last_attr(c) == "compute_cdf")
             ok = len(names) == 2 and c.args and dotted(c.args[0]) in names and dotted(c.func.value).split(".")[0] in names and dotted(c.args[0]) != dotted(c.func.value).split(".")[0]
     ctx.ob("19.7-tails", cname(PST, "ParametricStatistics", "compute_probability"), bool(ok), "component i of a variable is compared with ITS threshold: the cdf of the i-th fitted distribution is evaluated at the i-th threshold", node=(comps or [fp])[0], stmt="threshold i with distribution i")
+    # ... and the thresholds given per component are used as given: a threshold is replicated over the components only
+    # when there is a single one (a number, or a sequence of length one)
+    cfgp = cfg_of(fp)
+    thr = None
+    for c_ in ast.walk(fp):
+        if isinstance(c_, ast.Call) and last_attr(c_) == "compute_cdf" and c_.args:
+            a_ = c_.args[0]
+            while isinstance(a_, ast.Subscript):
+                a_ = a_.value
+            thr = dotted(a_) if isinstance(a_, ast.Name) and a_.id not in [p_.arg for p_ in fp.args.args] else thr
+    stores_ = [s_ for s_ in stmts_of(fp) if isinstance(s_, ast.Assign) and isinstance(s_.targets[0], ast.Subscript) and thr is not None and dotted(s_.targets[0].value) == thr]
+    kept = False
+    for s_ in stores_:
+        facts = literal_facts(cfgp, cfgp.node_of(s_))
+        single = any(v_ and ("isinstance(" in k_ and ("float" in k_ or "Number" in k_ or "Real" in k_)) for k_, v_ in facts.items()) or any(v_ and k_.replace(" ", "") .startswith("len(") and k_.replace(" ", "").endswith("==1") for k_, v_ in facts.items())
+        replicated = isinstance(s_.value, ast.BinOp) and isinstance(s_.value.op, ast.Mult)
+        if replicated:
+            ctx.ob("19.7-tails", cname(PST, "ParametricStatistics", "compute_probability"), single, f"a threshold is replicated over the components (`{norm_stmt(s_.value, 50)}`) although it is not known to be single (conditions: {sorted(k_ for k_, v_ in facts.items() if v_)}): the thresholds of the other components are ignored", node=s_, stmt="replicated only if single")
+        else:
+            kept = kept or not single
+    ctx.ob("19.7-tails", cname(PST, "ParametricStatistics", "compute_probability"), kept or not stores_, "thresholds given per component must be used as given", node=(stores_ or [fp])[0], stmt="per-component thresholds kept")
     for cls, rel, f in (("EmpiricalStatistics", ES, es.methods["compute_range"]), ("ParametricStatistics", PST, pst.methods["compute_range"])):
         subs = [n for n in walk_body(f) if isinstance(n, ast.BinOp) and isinstance(n.op, ast.Sub)]
         ok = len(subs) == 1
